@@ -901,7 +901,7 @@ func genExhaustive() []string {
 func gen(r *rand.Rand, tier string) []string {
 	nj, njs, nl, ns, nc, ne, nsl, nsp, nb := 40, 50, 1, 70, 10, 6, 1, 6, 2
 	if tier == "thorough" {
-		nj, njs, nl, ns, nc, ne, nsl, nsp, nb = 2600, 2600, 20, 4400, 500, 300, 10, 400, 40
+		nj, njs, nl, ns, nc, ne, nsl, nsp, nb = 2300, 2300, 20, 3900, 450, 270, 10, 360, 40
 	}
 	out := []string{"mode=table", "mode=table rp=1", "mode=table rp=1 rmd=1", "mode=table rmd=1",
 		// targets written without a port (only the reflection endpoint is reachable, through reflect_port), other spellings
